@@ -439,6 +439,8 @@ pub struct ClientHandle {
     /// for Streaming clients: the job they wait for and whether JobCompleted was received
     pub stream_job: Option<Jid>,
     pub stream_completed: bool,
+    /// the client closed its connection before its job's completion report arrived
+    pub left_early: bool,
     pub incarnation: u32,
 }
 
@@ -697,6 +699,8 @@ impl Sim {
                             (ClientState::Streaming, RespLite::Event(Ev::JobCompleted(j))) => {
                                 if Some(*j) == client.stream_job {
                                     client.stream_completed = true;
+                                    // `hq submit --wait` returns now and drops its connection
+                                    client.req_tx.close_channel();
                                 }
                             }
                             (ClientState::Waiting, _) => {
@@ -1061,6 +1065,7 @@ impl Sim {
             pending_since: 0,
             stream_job: None,
             stream_completed: false,
+            left_early: false,
             incarnation,
         });
         self.clients.len() - 1
@@ -1155,6 +1160,16 @@ impl Sim {
         c.pending = Some(req.clone());
         c.pending_since = step;
         let _ = c.req_tx.unbounded_send(Ok(msg));
+    }
+
+    /// A waiting client goes away (see `Action::HangUp`).
+    pub fn hang_up(&mut self, client: usize) {
+        if let Some(c) = self.clients.get_mut(client) {
+            if c.state == ClientState::Streaming && !c.stream_completed {
+                c.left_early = true;
+                c.req_tx.close_channel();
+            }
+        }
     }
 
     /// Sends a message built by the caller (used by the launcher lab for submits with programs).
